@@ -38,6 +38,7 @@ def run(chk):
     payload(chk, repo, cfun)
     header_content(chk, repo)
     front_ends(chk, repo)
+    row_count(chk, repo)
 
 
 # ---------------------------------------------------------------------------
@@ -304,3 +305,62 @@ def front_ends(chk, repo):
     cfg = cfg_of(rr)
     tn = [(n, rules.controlling_tests(cfg.view(), n)[:1]) for n in cfg.nodes for c in rules.stmts_calls(n) if call_name(c) == "to_native"]
     chk.ob("R01.5", "io.read_rec::byte-order-kept-unless-asked", len(tn) == 1 and tn[0][1] == [("ensure_native", "T")], rr.where(), "the byte order read from the file is changed only when ensure_native is requested")
+
+
+# ---------------------------------------------------------------------------
+def row_count(chk, repo):
+    """R01.6: when the row count of a binary file is not given it is (file size - data offset) // row size: a header-bearing file
+    read through the plain record reader (recfile.read / io.read with dtype= and offset=) must not count its header as rows"""
+    from vcheck.rules import cfg_of
+    from vcheck import rules
+    fi = repo.func("esutil.recfile.Util.Recfile._count_nrows")
+    chk.analysed_unit(fi.qualname)
+    cfg = cfg_of(fi)
+    view = cfg.view()
+    env = {}
+    for x in sorted([a for a in walk_no_nested(fi.node) if isinstance(a, ast.Assign) and len(a.targets) == 1 and isinstance(a.targets[0], ast.Name)], key=lambda a: a.lineno):
+        env.setdefault(x.targets[0].id, []).append(x)
+
+    def expand(e, depth=0):
+        """substitute single-definition locals (one level at a time, bounded)"""
+        if depth > 4:
+            return e
+        if isinstance(e, ast.Name) and len(env.get(e.id, [])) == 1:
+            return expand(env[e.id][0].value, depth + 1)
+        if isinstance(e, ast.BinOp):
+            return ast.BinOp(left=expand(e.left, depth + 1), op=e.op, right=expand(e.right, depth + 1))
+        return e
+    rets = [n for n in rules.return_nodes(cfg)]
+    rv = norm(rets[0].ast.value) if len(rets) == 1 and rets[0].ast.value is not None else None
+    cands = []
+    for n in cfg.nodes:
+        if n.kind == "stmt" and isinstance(n.ast, ast.Assign) and norm(n.ast.targets[0]) == rv and isinstance(n.ast.value, ast.BinOp) and isinstance(n.ast.value.op, ast.FloorDiv):
+            ts = dict(rules.controlling_tests(view, n))
+            if ts.get("self.delim is not None") == "F" or ts.get("self.delim is None") == "T":
+                cands.append(n)
+    ok = len(cands) == 1
+    chk.ob("R01.6", "_count_nrows::binary-arm-found", ok, fi.where(), "the binary arm derives the row count by an integer division")
+    if not ok:
+        return
+    n = cands[0]
+    num = expand(n.ast.value.left)
+    den = expand(n.ast.value.right)
+    okd = norm(den) == "self.dtype.itemsize"
+    okn = isinstance(num, ast.BinOp) and isinstance(num.op, ast.Sub) and norm(num.right) == "self.offset"
+    size_ok = False
+    if okn:
+        sz = num.left
+        if isinstance(sz, ast.Call) and call_name(sz) == "tell":
+            seeks = [m for m in cfg.nodes if m.kind == "stmt" and any(call_name(c) == "seek" and len(c.args) == 2 and norm(c.args[0]) == "0" and norm(c.args[1]) in ("2", "os.SEEK_END")
+                                                                     and norm(c.func.value) == norm(sz.func.value) for c in rules.stmts_calls(m))]
+            tell_node = next((m for m in cfg.nodes if m.kind == "stmt" and any(c is sz for c in rules.stmts_calls(m))), None)
+            if tell_node is None:
+                tell_node = next((m for m in cfg.nodes if m.kind == "stmt" and isinstance(m.ast, ast.Assign) and len(env.get(norm(m.ast.targets[0]), [])) == 1
+                                  and any(call_name(c) == "tell" for c in rules.stmts_calls(m))), None)
+            size_ok = bool(seeks) and tell_node is not None and any(view.dominates(sk, tell_node) for sk in seeks)
+        elif isinstance(sz, ast.Call) and call_name(sz) in ("getsize",):
+            size_ok = norm(sz.args[0]) == "self.filename"
+        elif isinstance(sz, ast.Attribute) and sz.attr == "st_size":
+            size_ok = True
+    chk.ob("R01.6", "_count_nrows::rows-are-(size-offset)//rowsize", bool(okd and okn and size_ok), fi.where(n.ast),
+           "row count = (size of the file - self.offset) // self.dtype.itemsize with the size taken at end of file (found `%s // %s`)" % (norm(num), norm(den)))
